@@ -27,6 +27,9 @@ HYDRO_POOLS = [
     # component names with further letters 'x' after (or before) the component letter
     ["density", "mix_x_ext", "mix_y_ext", "mix_z_ext", "velocity_x_max", "velocity_y_max", "velocity_z_max", "pressure"],
     ["density", "flux_x_axial", "flux_y_axial", "flux_z_axial", "extra_x", "extra_y", "extra_z", "xenon_x_mix", "xenon_y_mix", "xenon_z_mix"],
+    # no variable called "density" (the derived cell mass cannot be computed; everything else can)
+    ["rho", "velocity_x", "velocity_y", "velocity_z", "B_x_left", "B_y_left", "B_z_left", "B_x_right", "B_y_right", "B_z_right", "pressure"],
+    ["rho", "pressure", "metallicity"],
     # names that are proper prefixes of other names (unpadded numbering)
     ["density", "scalar_1", "scalar_10", "scalar_11", "radiative_energy_1", "radiative_energy_10", "thermal_pressure", "thermal_pressure_old"],
 ]
